@@ -36,9 +36,11 @@ def grid(tier, seed, section):
              ('u32', 0, 'i32', -1, 2), ('i32', 10, 'i8', 40, 2), ('i32', -1, 'u64', -1, 3), ('i128', -70, 'i64', -40, 2)]
     out = [c for c in fixed if instantiable(*c, section)]
     if section == 'C04':
-        # unsigned power_value with a non-binary radix wraps instead of failing to compile (known finding)
-        out.append(('u32', -10, 'u32', 0, 10))
-    n = 34 if tier == 'quick' else 160
+        # the largest powers of ten an unsigned representation holds (one more is ill-formed since the repair of
+        # C04.unsigned_power_value_wraps: power_value asserts that every product fits; it used to wrap silently)
+        out.append(('u32', -9, 'u32', 0, 10))
+        out.append(('u64', -19, 'u64', 0, 10))
+    n = (35 if section == 'C04' else 34) if tier == 'quick' else 160
     tries = 0
     while len(out) < n and tries < 5000:
         tries += 1
